@@ -244,6 +244,35 @@ pub fn run(tier: Tier) -> Report {
         }
     });
     n_three += work3.len() as u64;
+    // every ordered triple of the colliding sizes (equal area / other shape, equal luma count / other
+    // chroma count, equal chroma planes, equal macroblock grid) as three intra pictures on one
+    // decoder, plus pairs whose luma counts are equal and whose *rounded-up* chroma counts differ
+    // (odd dimensions); every accepted picture goes through deblocking and conversion
+    {
+        let mut sizes = super::crash::colliding_sizes(false);
+        sizes.extend([(6u16, 6u16), (9, 4), (4, 9), (1, 15), (3, 5), (5, 3), (15, 1)]);
+        let pairs: Vec<(usize, usize)> = (0..sizes.len()).flat_map(|a| (0..sizes.len()).map(move |b| (a, b))).collect();
+        pairs.par_iter().for_each(|&(a, b)| {
+            for c in 0..sizes.len() {
+                let mut d = Dec::new(1);
+                for (k, &(w, h)) in [sizes[a], sizes[b], sizes[c]].iter().enumerate() {
+                    let bytes = encode_bytes(&coded_intra(shdr(w, h, 0, k as u8, 7, 0)));
+                    d.fed.push(bytes.clone());
+                    match decode_bytes(&mut d.st, &bytes) {
+                        Outcome::Panic(pm) => {
+                            rep.violation(&panic_sig(&pm), format!("intra pictures {:?}, {:?}, {:?} on one decoder, picture {k}: {pm}", sizes[a], sizes[b], sizes[c]), d.replay("three intra pictures of colliding sizes"));
+                            break;
+                        }
+                        Outcome::Ok => post_process(&rep, &d.st, &format!("picture {k} of the intra pictures {:?}, {:?}, {:?} on one decoder", sizes[a], sizes[b], sizes[c]), d.replay("three intra pictures of colliding sizes")),
+                        Outcome::Err(_) => break,
+                    }
+                }
+            }
+        });
+        let n = (pairs.len() * sizes.len()) as u64;
+        n_three += n;
+        rep.extra("colliding_size_triples", json!(n));
+    }
     rep.add_transitions(3 * n_three);
     rep.add_states(n_three);
     rep.extra("three_picture_size_histories", json!(n_three));
@@ -270,7 +299,7 @@ pub fn run(tier: Tier) -> Report {
     rep.add_transitions(std_cases.len() as u64);
     rep.add_states(std_cases.len() as u64);
     rep.set_rule(&format!(
-        "every size 1..={maxd} x 1..={maxd}: I pictures at every quantizer 1..31 (fully crossed for sizes <= 20x20, pairwise beyond), plus a P and a D picture per size, plus long/thin extras, every residue mod 16 above 256/512/1024, all pairs of the boundary lattice of dimensions (powers of two and their neighbours, 3*2^k, the named formats, 65535) under the pixel cap, every height / width up to 700 (thorough 1500) next to a fixed 24, prime sizes, one picture of more than 2^24 samples, and standard-mode custom sizes: plane-size relations, then deblock(plane, row, QUANT_TO_STRENGTH[q]) on the three planes and yuv420_to_rgba on the result under catch_unwind; non-trivial = sizes with an odd dimension or fewer than 10 rows/columns"
+        "every size 1..={maxd} x 1..={maxd}: I pictures at every quantizer 1..31 (fully crossed for sizes <= 20x20, pairwise beyond), plus a P and a D picture per size, plus long/thin extras, every residue mod 16 above 256/512/1024, all pairs of the boundary lattice of dimensions (powers of two and their neighbours, 3*2^k, the named formats, 65535) under the pixel cap, every height / width up to 700 (thorough 1500) next to a fixed 24, prime sizes, one picture of more than 2^24 samples, three-picture size histories, every ordered triple of 24 colliding sizes as intra pictures on one decoder, and standard-mode custom sizes: plane-size relations, then deblock(plane, row, QUANT_TO_STRENGTH[q]) on the three planes and yuv420_to_rgba on the result under catch_unwind; non-trivial = sizes with an odd dimension or fewer than 10 rows/columns"
     ));
     rep.sample(json!({"size": [1, 1], "q": 31, "kind": "I"}));
     rep.sample(json!({"size": [17, 2], "q": 12, "kind": "D", "note": "chroma planes are one row high"}));
